@@ -10,6 +10,9 @@ CHECKS = {
  "C05": dict(technique=DBE + " plus a metamorphic oracle (text vs. its AST-level expansion)",
              text="All files with <=k deviations from the default Define/ModelAlias scenario (placement, redefinition, 0..3 uses in 1..3 blocks, negated uses, alias parameter lists with Define'd names, copied and conjugated tables) are parsed and compared with the reference semantics, with the expanded text, and with dict_definitions/dict_model_aliases.",
              note="Bound 2 (quick) / 3 (thorough) deviations; +name, alias-of-alias and alias names equal to model names are outside the space.", ref="3/C05"),
+ "C02": dict(technique="exhaustive enumeration of semantics-preserving rewrites: every single edit (13 kinds) at every physical line / token gap of every base input, every pair of edits at the same or adjacent lines of the generated files, every 2-way and 3-way file split; differential oracle = canonical snapshot of all public queries",
+             text="Each base input (generated kitchen-sink files, every parseable fixture, the shipped master files) is rewritten by comments, blank lines, indentation, wider gaps, CRLF, wrapped / comma-separated parameter lists, repeated semicolons, final End, BOM, file splitting and string-vs-file construction at every position found by an independent line tokenizer; the snapshot of every query must equal that of the base.",
+             note="Master files: each edit kind at all / even / odd positions at once (a differing composite is bisected); statements already spread over several physical lines get no wrapping edits.", ref="3/C02"),
  "C03": dict(technique=DBE + "; complete sweeps over all 684 paired EvtGen names as CDecay subject and over alias spellings (every initial letter, both ChargeConj orientations)",
              text="Every file with <=k deviations from the default CDecay scenario (naming, statement order (all 24), source via CopyDecay, Decay for X, missing source, self-conjugate subject, 1..4 CDecay statements, unrelated tables) is parsed with the switch on and off and the whole set of tables is compared with the reference conjugation built from the raw particle data files.",
              note="Bound 2 / 3 deviations; names that are the subject of two CDecay statements and non-involutive ChargeConj tables are outside the space.", ref="3/C03"),
